@@ -3,6 +3,7 @@ import ChythonModel.Proofs.C15Format
 import ChythonModel.Proofs.C15Equivariant
 import ChythonModel.Proofs.C15Read
 import ChythonModel.Proofs.C15Cx
+import ChythonModel.Proofs.C15Rxn
 import ChythonModel.Model.C15CgrTokens
 import ChythonModel.Model.C15Read
 /-!
@@ -378,5 +379,34 @@ example :
   · intro m hm; simp at hm; subst hm; refine ⟨by simp, ?_⟩; intro f hf; simp at hf; subst hf; decide
   · intro m hm; simp at hm; subst hm; refine ⟨by simp, ?_⟩; intro f hf; simp at hf; subst hf; decide
   · intro m hm; cases hm
+
+/-! ## part 7 — `~reaction` (`ReactionContainer.compose`) -/
+
+/-- **rxn_compose_is_compose.** For role lists whose molecules carry pairwise different atom numbers inside a side
+    (reagents are put on the reactant side): `~reaction` is `compose` of the concatenated sides, and the concatenated
+    sides are well-formed — so parts 1, 2 and 5 apply verbatim to `~reaction` (reagents, having no counterpart among the
+    products, are carried over unchanged by `compose_atom_spec` / `compose_bond_spec`). With colliding numbers
+    `Graph.union` renumbers (modelled and compared in the `rxn` stream; no theorem). -/
+theorem rxn_compose_is_compose (R A P : List Mol) (hw : ∀ m ∈ R ++ A ++ P, m.WF = true)
+    (hdr : DisjointIds (A ++ R)) (hdp : DisjointIds P) :
+    rxnCompose R A P = compose (concat (A ++ R)) (concat P) ∧
+    (concat (A ++ R)).WF = true ∧ (concat P).WF = true := by
+  have wAR : ∀ m ∈ A ++ R, WFp m := fun m hm => wfp_of_WF m (hw m (by
+    rcases List.mem_append.mp hm with h | h <;> simp [h]))
+  have wP : ∀ m ∈ P, WFp m := fun m hm => wfp_of_WF m (hw m (by simp [hm]))
+  refine ⟨?_, WF_of_wfp _ (concat_wfp _ wAR hdr), WF_of_wfp _ (concat_wfp _ wP hdp)⟩
+  unfold rxnCompose
+  rw [unionAll_disjoint _ hdr, unionAll_disjoint _ hdp]
+
+/-- non-trivial instance: ethanol + a sodium ion as reagent → ethoxide; the centre is the oxygen only -/
+example :
+    let etoh : Mol := ⟨[(1, {z := 6}), (2, {z := 8})], [(1, [(2, {order := 1})]), (2, [(1, {order := 1})])]⟩
+    let eto : Mol := ⟨[(1, {z := 6}), (2, {z := 8, charge := -1})], [(1, [(2, {order := 1})]), (2, [(1, {order := 1})])]⟩
+    let na : Mol := ⟨[(3, {z := 11, charge := 1})], [(3, [])]⟩
+    DisjointIds ([na] ++ [etoh]) ∧ DisjointIds [eto] ∧
+    (rxnCompose [etoh] [na] [eto]).toOption.map (·.centerAtoms) = some [2] := by
+  refine ⟨?_, ?_, by decide⟩
+  · simp [DisjointIds, Mol.ids]
+  · simp [DisjointIds]
 
 end ChythonModel.Props.C15
